@@ -56,6 +56,7 @@ def tyParamL : Ty → List Bytes
       else tyKey k :: tyKey v :: (if lo = 0 ∧ hi = maxInt then [] else sizeParamL lo hi)
   | .like b n => if b.isAny ∧ n.isEmpty then [] else [tyKey b, strMark ++ n]
   | .callable h ts => [if h then tupKeyOf ts else undefKey, undefKey, undefKey]
+  | .struct _ => []      -- (a Struct's parameter is not a list of framed keys: `structTail`)
   | .runtime rt n p =>
       if (rt.isEmpty ∧ n.isEmpty) ∧ p.isNone then []
       else (strMark ++ rt) :: ((if n.isEmpty ∧ p.isNone then [] else [strMark ++ n]) ++ (match p with | none => [] | some p => [rxTyKey p]))
@@ -81,8 +82,21 @@ theorem wrapParam_shape (q : Bool) (t : Ty) : wrapParam q t (tyKey t) = flat ((w
   cases q <;> cases t <;> simp [wrapParam, wrapParamL, Ty.isAny, flat, ekStr]
   split <;> simp [flat]
 
-theorem tyKey_shape (t : Ty) : tyKey t = [1, 0x74] ++ (frame (strMark ++ t.name) ++ flat ((tyParamL t).map frame)) := by
+def Ty.isStruct : Ty → Bool
+  | .struct _ => true
+  | _ => false
+
+/-- what follows the name in the key of a Struct -/
+def structTail (es : List (Bytes × Bool × Ty)) : Bytes := if es.isEmpty then [] else 2 :: (ekInt es.length ++ tyKeyS es)
+
+theorem tyKey_struct (es : List (Bytes × Bool × Ty)) :
+    tyKey (.struct es) = [1, 0x74] ++ (frame (strMark ++ (Ty.struct es).name) ++ structTail es) := by
+  simp [tyKey, structTail, Ty.name, ekStr]
+
+theorem tyKey_shape (t : Ty) (hs : t.isStruct = false := by rfl) :
+    tyKey t = [1, 0x74] ++ (frame (strMark ++ t.name) ++ flat ((tyParamL t).map frame)) := by
   cases t with
+  | struct es => simp [Ty.isStruct] at hs
   | any => simp [tyKey, tyParamL, ekStr, flat]
   | undef => simp [tyKey, tyParamL, ekStr, flat]
   | str => simp [tyKey, tyParamL, ekStr, flat]
@@ -144,7 +158,7 @@ theorem tyKey_shape (t : Ty) : tyKey t = [1, 0x74] ++ (frame (strMark ++ t.name)
 
 inductive NameTag where
   | any | undef | str | int | flt | enum | arr | var | tup | opt | typ
-  | nul (k : NulK) | bool | coll | un (k : UnK) | rx | pattern | tref | semver | hash | like | callable | runtime
+  | nul (k : NulK) | bool | coll | un (k : UnK) | rx | pattern | tref | semver | hash | like | callable | runtime | struct
   deriving DecidableEq
 
 def nameTag : Ty → NameTag
@@ -153,6 +167,7 @@ def nameTag : Ty → NameTag
   | .nul k => .nul k | .bool _ => .bool | .coll _ _ => .coll | .un k _ => .un k
   | .strSize _ _ => .str | .strVal _ => .str | .rx _ => .rx | .pattern _ => .pattern | .tref _ => .tref
   | .semverT _ _ => .semver | .hash _ _ _ _ => .hash | .like _ _ => .like | .callable _ _ => .callable | .runtime _ _ _ => .runtime
+  | .struct _ => .struct
 
 def tagName : NameTag → Bytes
   | .any => Ty.any.name | .undef => Ty.undef.name | .str => Ty.str.name | .int => (Ty.int 0 0).name | .flt => (Ty.flt 0 0).name
@@ -161,7 +176,7 @@ def tagName : NameTag → Bytes
   | .coll => (Ty.coll 0 0).name | .un k => (Ty.un k .any).name | .rx => (Ty.rx []).name | .pattern => (Ty.pattern []).name
   | .tref => (Ty.tref []).name | .semver => (Ty.semverT [] []).name
   | .hash => (Ty.hash .any .any 0 0).name | .like => (Ty.like .any []).name | .callable => (Ty.callable false []).name
-  | .runtime => (Ty.runtime [] [] none).name
+  | .runtime => (Ty.runtime [] [] none).name | .struct => (Ty.struct []).name
 
 theorem name_tag (t : Ty) : t.name = tagName (nameTag t) := by
   cases t with
@@ -171,7 +186,7 @@ theorem name_tag (t : Ty) : t.name = tagName (nameTag t) := by
 
 def allTags : List NameTag :=
   [.any, .undef, .str, .int, .flt, .enum, .arr, .var, .tup, .opt, .typ, .bool, .coll, .rx, .pattern, .tref, .semver,
-   .hash, .like, .callable, .runtime,
+   .hash, .like, .callable, .runtime, .struct,
    .nul .dflt, .nul .unit, .nul .scalar, .nul .scalarData, .nul .numeric, .nul .binary, .nul .data, .nul .richData, .nul .semverRange,
    .un .notUndef, .un .sensitive, .un .iterable, .un .iterator]
 
@@ -190,13 +205,37 @@ theorem name_eq_iff (a b : Ty) : a.name = b.name ↔ nameTag a = nameTag b := by
   exact ⟨tagName_inj_list _ (mem_allTags _) _ (mem_allTags _), fun h => by rw [h]⟩
 
 /-- the key of a type is its name and its parameter keys -/
-theorem tyKey_eq_iff (a b : Ty) : tyKey a = tyKey b ↔ a.name = b.name ∧ tyParamL a = tyParamL b := by
-  rw [tyKey_shape a, tyKey_shape b]
+theorem nameTag_struct (t : Ty) : nameTag t = .struct ↔ t.isStruct = true := by
+  cases t <;> simp [nameTag, Ty.isStruct]
+
+theorem isStruct_of_name {a b : Ty} (ha : a.isStruct = false) (h : a.name = b.name) : b.isStruct = false := by
+  rw [name_eq_iff] at h
+  cases hb : b.isStruct
+  · rfl
+  · have := (nameTag_struct b).mpr hb
+    rw [← h] at this
+    rw [(nameTag_struct a).mp this] at ha
+    cases ha
+
+theorem tyKey_shape_gen (t : Ty) : ∃ tail, tyKey t = [1, 0x74] ++ (frame (strMark ++ t.name) ++ tail) := by
+  cases hs : t.isStruct
+  · exact ⟨_, tyKey_shape t hs⟩
+  · cases t <;> simp [Ty.isStruct] at hs
+    exact ⟨_, tyKey_struct _⟩
+
+/-- the key of a type that is not a Struct is its name and its parameter keys -/
+theorem tyKey_eq_iff (a b : Ty) (ha : a.isStruct = false) : tyKey a = tyKey b ↔ a.name = b.name ∧ tyParamL a = tyParamL b := by
   constructor
   · intro h
+    obtain ⟨tb, hb⟩ := tyKey_shape_gen b
+    have hn : a.name = b.name := by
+      rw [tyKey_shape a ha, hb] at h
+      exact List.append_cancel_left (frame_decode (List.append_cancel_left h)).1
+    rw [tyKey_shape a ha, tyKey_shape b (isStruct_of_name ha hn)] at h
     have h1 := frame_decode (List.append_cancel_left h)
-    exact ⟨List.append_cancel_left h1.1, flat_frames_inj _ _ h1.2⟩
-  · rintro ⟨h1, h2⟩; rw [h1, h2]
+    exact ⟨hn, flat_frames_inj _ _ h1.2⟩
+  · rintro ⟨h1, h2⟩
+    rw [tyKey_shape a ha, tyKey_shape b (isStruct_of_name ha h1), h1, h2]
 
 /-! ### parameter lists are injective -/
 
@@ -279,7 +318,8 @@ def IsTyKey (a : Bytes) : Prop := ∃ r, a = 1 :: 0x74 :: r
 def IsStrKey (a : Bytes) : Prop := ∃ r, a = 1 :: 0x73 :: r
 
 theorem tyKey_hd (t : Ty) : IsTyKey (tyKey t) := by
-  rw [tyKey_shape t]; exact ⟨_, rfl⟩
+  obtain ⟨tail, h⟩ := tyKey_shape_gen t
+  rw [h]; exact ⟨_, rfl⟩
 
 theorem not_isTyKey_size {lo hi : Int} : ∀ s ∈ sizeParamL lo hi, ¬ IsTyKey s := by
   intro s hs
@@ -518,7 +558,7 @@ theorem intKey_ne_tyKey (i : Int) (t : Ty) : intKey i ≠ tyKey t := by
 theorem rxTyKey_eq (p : Bytes) : rxTyKey p = tyKey (.rx p) := by simp [tyKey]
 
 theorem rxTyKey_inj {p q : Bytes} : rxTyKey p = rxTyKey q ↔ p = q := by
-  rw [rxTyKey_eq, rxTyKey_eq, tyKey_eq_iff]
+  rw [rxTyKey_eq, rxTyKey_eq, tyKey_eq_iff _ _ rfl]
   cases p <;> cases q <;> simp [Ty.name, tyParamL, rxKey]
 
 theorem strMark_ne_rxTyKey (v p : Bytes) : strMark ++ v ≠ rxTyKey p := by
@@ -625,7 +665,7 @@ theorem tupKeyOf_eq (ts : List Ty) : tupKeyOf ts = tyKey (.tup ts none) := by si
 theorem tupKeyOf_iff {ts us : List Ty} (h1 : (ts.length : Int) ≤ maxInt) (h2 : (us.length : Int) ≤ maxInt)
     (hL : ts.map tyKey = us.map tyKey ↔ ts.length = us.length ∧ tyEqL ts us = true) :
     tupKeyOf ts = tupKeyOf us ↔ ts.length = us.length ∧ tyEqL ts us = true := by
-  rw [tupKeyOf_eq, tupKeyOf_eq, tyKey_eq_iff]
+  rw [tupKeyOf_eq, tupKeyOf_eq, tyKey_eq_iff _ _ rfl]
   simp only [Ty.name, tyParamL, goaSize, true_and]
   have o1 : IntOk (ts.length : Int) := by simp only [IntOk, minInt, maxInt] at *; omega
   have o2 : IntOk (us.length : Int) := by simp only [IntOk, minInt, maxInt] at *; omega
@@ -639,33 +679,100 @@ theorem undefKey_ne_tyKey (t : Ty) : undefKey ≠ tyKey t := by
   obtain ⟨r, hr⟩ := tyKey_hd t
   rw [hr]; simp [undefKey]
 
+/-! ### Struct: the entry keys -/
+
+theorem acceptsUndefL_eq (ts : List Ty) : acceptsUndefL ts = ts.any acceptsUndef := by
+  induction ts with
+  | nil => rfl
+  | cons t ts ih => simp [acceptsUndefL, ih]
+
+/-- Equal types accept undef alike (so the entry key of a Struct member is written in the same form on both sides) -/
+theorem tyEq_acceptsUndef : ∀ (n : Nat) (a b : Ty), sizeOf a ≤ n → tyEq a b = true → acceptsUndef a = acceptsUndef b := by
+  intro n
+  induction n with
+  | zero => intro a b h; cases a <;> simp at h
+  | succ n ih =>
+    intro a b hs h
+    cases a with
+    | var ts =>
+      cases b with
+      | var us =>
+        rw [tyEq_var] at h
+        obtain ⟨_, h1, h2⟩ := h
+        simp only [acceptsUndef, acceptsUndefL_eq]
+        have sz : ∀ v ∈ ts, sizeOf v ≤ n := by
+          intro v hv
+          have := List.sizeOf_lt_of_mem hv
+          simp only [Ty.var.sizeOf_spec] at hs
+          omega
+        apply Bool.eq_iff_iff.mpr
+        simp only [List.any_eq_true]
+        constructor
+        · rintro ⟨v, hv, ha⟩
+          obtain ⟨u, hu, e⟩ := h1 v hv
+          exact ⟨u, hu, by rw [← ih v u (sz v hv) e]; exact ha⟩
+        · rintro ⟨u, hu, ha⟩
+          obtain ⟨v, hv, e⟩ := h2 u hu
+          exact ⟨v, hv, by rw [ih v u (sz v hv) e]; exact ha⟩
+      | _ => simp [tyEq] at h
+    | nul k => cases b <;> simp [tyEq] at h; subst h; rfl
+    | any => cases b <;> simp [tyEq] at h; rfl
+    | undef => cases b <;> simp [tyEq] at h; rfl
+    | opt t => cases b <;> simp [tyEq] at h; rfl
+    | _ => cases b <;> simp [tyEq] at h <;> rfl
+
+theorem ekStr_inj {a b : Bytes} : ekStr a = ekStr b ↔ a = b := by
+  constructor
+  · intro h; exact List.append_cancel_left (frame_inj h)
+  · intro h; rw [h]
+
+theorem structEntryKey_inj {n n' : Bytes} {o o' a : Bool} :
+    structEntryKey n o a = structEntryKey n' o' a ↔ n = n' ∧ o = o' := by
+  cases o <;> cases o' <;> cases a <;>
+    simp [structEntryKey, optStrKey, notUndefStrKey, strMark, ekStr_inj]
+
+theorem tyKeyS_step {n n' : Bytes} {o o' : Bool} {v v' : Ty} {es fs : List (Bytes × Bool × Ty)}
+    (ihv : tyKey v = tyKey v' ↔ tyEq v v' = true) (ihs : tyKeyS es = tyKeyS fs ↔ tyEqS es fs = true) :
+    tyKeyS ((n, o, v) :: es) = tyKeyS ((n', o', v') :: fs) ↔ tyEqS ((n, o, v) :: es) ((n', o', v') :: fs) = true := by
+  simp only [tyKeyS, tyEqS, Bool.and_eq_true, beq_iff_eq]
+  constructor
+  · intro h
+    have h1 := frame_decode h
+    have h2 := frame_decode (List.cons.inj h1.2).2
+    have hv := ihv.mp h2.1
+    have ha := tyEq_acceptsUndef _ v v' (Nat.le_refl _) hv
+    rw [ha] at h1
+    exact ⟨⟨structEntryKey_inj.mp h1.1, hv⟩, ihs.mp h2.2⟩
+  · rintro ⟨⟨⟨rfl, rfl⟩, hv⟩, hs⟩
+    rw [tyEq_acceptsUndef _ v v' (Nat.le_refl _) hv, ihv.mpr hv, ihs.mpr hs]
+
 mutual
 theorem tyKey_iff : ∀ a b : Ty, TyWF a = true → TyWF b = true → (tyKey a = tyKey b ↔ tyEq a b = true)
-  | .any, b, _, _ => by rw [tyKey_eq_iff, name_eq_iff]; cases b <;> simp [nameTag, tyEq, tyParamL]
-  | .undef, b, _, _ => by rw [tyKey_eq_iff, name_eq_iff]; cases b <;> simp [nameTag, tyEq, tyParamL]
+  | .any, b, _, _ => by rw [tyKey_eq_iff _ _ (by rfl), name_eq_iff]; cases b <;> simp [nameTag, tyEq, tyParamL]
+  | .undef, b, _, _ => by rw [tyKey_eq_iff _ _ (by rfl), name_eq_iff]; cases b <;> simp [nameTag, tyEq, tyParamL]
   | .str, b, _, hb => by
-      rw [tyKey_eq_iff, name_eq_iff]
+      rw [tyKey_eq_iff _ _ (by rfl), name_eq_iff]
       cases b <;> simp [nameTag, tyEq, tyParamL]
       simp only [TyWF, Bool.and_eq_true, decide_eq_true_eq] at hb
       exact intParamL_ne_nil hb.1.1
   | .int lo hi, b, ha, hb => by
-      rw [tyKey_eq_iff, name_eq_iff]
+      rw [tyKey_eq_iff _ _ (by rfl), name_eq_iff]
       cases b <;> simp [nameTag, tyEq, tyParamL]
       simp only [TyWF, Bool.and_eq_true, decide_eq_true_eq] at ha hb
       exact intParamL_inj ha.1 ha.2 hb.1 hb.2
   | .flt lo hi, b, ha, hb => by
-      rw [tyKey_eq_iff, name_eq_iff]
+      rw [tyKey_eq_iff _ _ (by rfl), name_eq_iff]
       cases b <;> simp [nameTag, tyEq, tyParamL]
       simp only [TyWF, Bool.and_eq_true, decide_eq_true_eq, Bool.not_eq_true'] at ha hb
       exact fltParamL_inj ha.1 ha.2 hb.1 hb.2
   | .enum ci vs, b, ha, hb => by
-      rw [tyKey_eq_iff, name_eq_iff]
+      rw [tyKey_eq_iff _ _ (by rfl), name_eq_iff]
       cases b <;> simp [nameTag, tyEq, tyParamL]
       rename_i ci' vs'
       simp only [TyWF, decide_eq_true_eq] at ha hb
       exact enumParam_iff ha hb
   | .arr e lo hi, b, ha, hb => by
-      rw [tyKey_eq_iff, name_eq_iff]
+      rw [tyKey_eq_iff _ _ (by rfl), name_eq_iff]
       cases b <;> simp [nameTag, tyEq, tyParamL]
       rename_i e' lo' hi'
       simp only [TyWF, Bool.and_eq_true, decide_eq_true_eq] at ha hb
@@ -703,7 +810,7 @@ theorem tyKey_iff : ∀ a b : Ty, TyWF a = true → TyWF b = true → (tyKey a =
       cases b with
       | var us =>
         simp only [TyWF, Bool.and_eq_true, decide_eq_true_eq] at ha hb
-        rw [tyKey_eq_iff, tyEq_var]
+        rw [tyKey_eq_iff _ _ (by rfl), tyEq_var]
         simp only [Ty.name, tyParamL, List.cons.injEq, true_and, dedupS_sortB_eq_iff]
         rw [intKey_inj (lenOk ha.2) (lenOk hb.2)]
         have ih : ∀ v ∈ ts, ∀ u ∈ us, (tyKey v = tyKey u ↔ tyEq v u = true) :=
@@ -723,9 +830,9 @@ theorem tyKey_iff : ∀ a b : Ty, TyWF a = true → TyWF b = true → (tyKey a =
           · obtain ⟨u, hu, rfl⟩ := List.mem_map.mp hx
             obtain ⟨v, hv, e⟩ := h2 u hu
             rw [← (ih v hv u hu).mpr e]; exact List.mem_map_of_mem hv
-      | _ => rw [tyKey_eq_iff, name_eq_iff]; simp [nameTag, tyEq]
+      | _ => rw [tyKey_eq_iff _ _ (by rfl), name_eq_iff]; simp [nameTag, tyEq]
   | .tup ts sz, b, ha, hb => by
-      rw [tyKey_eq_iff, name_eq_iff]
+      rw [tyKey_eq_iff _ _ (by rfl), name_eq_iff]
       cases b <;> simp [nameTag, tyEq, tyParamL]
       rename_i us sz'
       simp only [TyWF, Bool.and_eq_true, decide_eq_true_eq] at ha hb
@@ -750,20 +857,20 @@ theorem tyKey_iff : ∀ a b : Ty, TyWF a = true → TyWF b = true → (tyKey a =
       · rintro ⟨⟨h1, h2⟩, h3⟩
         exact ⟨⟨h1, h3⟩, by rw [h2], by rw [h2]⟩
   | .opt t, b, ha, hb => by
-      rw [tyKey_eq_iff, name_eq_iff]
+      rw [tyKey_eq_iff _ _ (by rfl), name_eq_iff]
       cases b <;> simp [nameTag, tyEq, tyParamL]
       rename_i u
       simp only [TyWF] at ha hb
       exact wrapParamL_iff ha hb (tyKey_iff t u ha hb)
   | .typ t, b, ha, hb => by
-      rw [tyKey_eq_iff, name_eq_iff]
+      rw [tyKey_eq_iff _ _ (by rfl), name_eq_iff]
       cases b <;> simp [nameTag, tyEq, tyParamL]
       rename_i u
       simp only [TyWF] at ha hb
       exact wrapParamL_iff ha hb (tyKey_iff t u ha hb)
-  | .nul k, b, _, _ => by rw [tyKey_eq_iff, name_eq_iff]; cases b <;> simp [nameTag, tyEq, tyParamL]
+  | .nul k, b, _, _ => by rw [tyKey_eq_iff _ _ (by rfl), name_eq_iff]; cases b <;> simp [nameTag, tyEq, tyParamL]
   | .bool v, b, _, _ => by
-      rw [tyKey_eq_iff, name_eq_iff]
+      rw [tyKey_eq_iff _ _ (by rfl), name_eq_iff]
       cases b with
       | bool v' =>
         cases v with
@@ -774,12 +881,12 @@ theorem tyKey_iff : ∀ a b : Ty, TyWF a = true → TyWF b = true → (tyKey a =
           | some y => cases x <;> cases y <;> simp [nameTag, tyEq, tyParamL, boolKey]
       | _ => simp [nameTag, tyEq, tyParamL]
   | .coll lo hi, b, ha, hb => by
-      rw [tyKey_eq_iff, name_eq_iff]
+      rw [tyKey_eq_iff _ _ (by rfl), name_eq_iff]
       cases b <;> simp [nameTag, tyEq, tyParamL]
       simp only [TyWF, Bool.and_eq_true, decide_eq_true_eq] at ha hb
       exact sizeOptL_iff ha.1 ha.2 hb.1 hb.2
   | .un k t, b, ha, hb => by
-      rw [tyKey_eq_iff, name_eq_iff]
+      rw [tyKey_eq_iff _ _ (by rfl), name_eq_iff]
       cases b <;> simp [nameTag, tyEq, tyParamL]
       rename_i k' u
       simp only [TyWF] at ha hb
@@ -787,7 +894,7 @@ theorem tyKey_iff : ∀ a b : Ty, TyWF a = true → TyWF b = true → (tyKey a =
       subst hk
       exact wrapParamL_iff ha hb (tyKey_iff t u ha hb)
   | .strSize lo hi, b, ha, hb => by
-      rw [tyKey_eq_iff, name_eq_iff]
+      rw [tyKey_eq_iff _ _ (by rfl), name_eq_iff]
       simp only [TyWF, Bool.and_eq_true, decide_eq_true_eq] at ha
       cases b <;> simp [nameTag, tyEq, tyParamL]
       · exact intParamL_ne_nil ha.1.1
@@ -798,21 +905,21 @@ theorem tyKey_iff : ∀ a b : Ty, TyWF a = true → TyWF b = true → (tyKey a =
         exact intParamL_inj ⟨m1, ha.1.2⟩ ha.2 ⟨m2, hb.1.2⟩ hb.2
       · exact intParamL_ne_str
   | .strVal v, b, _, _ => by
-      rw [tyKey_eq_iff, name_eq_iff]
+      rw [tyKey_eq_iff _ _ (by rfl), name_eq_iff]
       cases b <;> simp [nameTag, tyEq, tyParamL]
       exact fun h => intParamL_ne_str h.symm
   | .rx p, b, _, _ => by
-      rw [tyKey_eq_iff, name_eq_iff]
+      rw [tyKey_eq_iff _ _ (by rfl), name_eq_iff]
       cases b with
       | rx q => cases p <;> cases q <;> simp [nameTag, tyEq, tyParamL, rxKey]
       | _ => simp [nameTag, tyEq, tyParamL]
   | .pattern ps, b, ha, hb => by
-      rw [tyKey_eq_iff, name_eq_iff]
+      rw [tyKey_eq_iff _ _ (by rfl), name_eq_iff]
       cases b <;> simp [nameTag, tyEq, tyParamL]
       simp only [TyWF, decide_eq_true_eq] at ha hb
       exact patternParam_iff ha hb
   | .tref s, b, _, _ => by
-      rw [tyKey_eq_iff, name_eq_iff]
+      rw [tyKey_eq_iff _ _ (by rfl), name_eq_iff]
       cases b with
       | tref s' =>
         simp only [nameTag, tyEq, tyParamL, true_and, beq_iff_eq]
@@ -825,7 +932,7 @@ theorem tyKey_iff : ∀ a b : Ty, TyWF a = true → TyWF b = true → (tyKey a =
           · simp [h, h']
       | _ => simp [nameTag, tyEq, tyParamL]
   | .semverT o rs, b, ha, hb => by
-      rw [tyKey_eq_iff, name_eq_iff]
+      rw [tyKey_eq_iff _ _ (by rfl), name_eq_iff]
       cases b with
       | semverT o' rs' =>
         simp only [TyWF, List.all_eq_true] at ha hb
@@ -840,7 +947,7 @@ theorem tyKey_iff : ∀ a b : Ty, TyWF a = true → TyWF b = true → (tyKey a =
             exact ⟨fun e => normStr_inj ha hb e, fun e => by rw [e]⟩
       | _ => simp [nameTag, tyEq, tyParamL]
   | .hash k v lo hi, b, ha, hb => by
-      rw [tyKey_eq_iff, name_eq_iff]
+      rw [tyKey_eq_iff _ _ (by rfl), name_eq_iff]
       cases b with
       | hash k' v' lo' hi' =>
         simp only [TyWF, Bool.and_eq_true, decide_eq_true_eq] at ha hb
@@ -848,7 +955,7 @@ theorem tyKey_iff : ∀ a b : Ty, TyWF a = true → TyWF b = true → (tyKey a =
         exact hashParam_iff ha.2.1 ha.2.2 hb.2.1 hb.2.2 (tyKey_iff k k' ha.1.1 hb.1.1) (tyKey_iff v v' ha.1.2 hb.1.2)
       | _ => simp [nameTag, tyEq]
   | .like t n, b, ha, hb => by
-      rw [tyKey_eq_iff, name_eq_iff]
+      rw [tyKey_eq_iff _ _ (by rfl), name_eq_iff]
       cases b with
       | like t' n' =>
         simp only [TyWF] at ha hb
@@ -856,7 +963,7 @@ theorem tyKey_iff : ∀ a b : Ty, TyWF a = true → TyWF b = true → (tyKey a =
         exact likeParam_iff (tyKey_iff t t' ha hb)
       | _ => simp [nameTag, tyEq]
   | .callable h ts, b, ha, hb => by
-      rw [tyKey_eq_iff, name_eq_iff]
+      rw [tyKey_eq_iff _ _ (by rfl), name_eq_iff]
       cases b with
       | callable h' us =>
         cases h with
@@ -874,12 +981,46 @@ theorem tyKey_iff : ∀ a b : Ty, TyWF a = true → TyWF b = true → (tyKey a =
             exact tupKeyOf_iff ha.2 hb.2 (tyKey_iff_L ts us ha.1 hb.1)
       | _ => simp [nameTag, tyEq]
   | .runtime rt n p, b, _, _ => by
-      rw [tyKey_eq_iff, name_eq_iff]
+      rw [tyKey_eq_iff _ _ (by rfl), name_eq_iff]
       cases b with
       | runtime rt' n' p' =>
         simp only [nameTag, true_and, tyEq, Bool.and_eq_true, beq_iff_eq]
         exact runtimeParam_iff
       | _ => simp [nameTag, tyEq]
+  | .struct es, b, ha, hb => by
+      cases b with
+      | struct fs =>
+        simp only [TyWF, Bool.and_eq_true, decide_eq_true_eq] at ha hb
+        rw [tyKey_struct, tyKey_struct]
+        simp only [Ty.name, List.append_cancel_left_eq, tyEq, Bool.and_eq_true, beq_iff_eq]
+        cases es with
+        | nil =>
+          cases fs with
+          | nil => simp [structTail, tyEqS]
+          | cons f fs => simp [structTail]
+        | cons e es =>
+          cases fs with
+          | nil => simp [structTail]
+          | cons f fs =>
+            simp only [structTail, List.isEmpty_cons, Bool.false_eq_true, if_false, List.cons.injEq, true_and, ekInt]
+            constructor
+            · intro h
+              have h1 := frame_decode h
+              have hl : (e :: es).length = (f :: fs).length := by
+                have := (intKey_inj (lenOk ha.2) (lenOk hb.2)).mp h1.1
+                exact_mod_cast this
+              exact ⟨hl, (tyKey_iff_S (e :: es) (f :: fs) ha.1 hb.1 hl).mp h1.2⟩
+            · rintro ⟨hl, h⟩
+              rw [hl, (tyKey_iff_S (e :: es) (f :: fs) ha.1 hb.1 hl).mpr h]
+      | _ => rw [eq_comm, tyKey_eq_iff _ _ (by rfl), name_eq_iff]; simp [nameTag, tyEq]
+theorem tyKey_iff_S : ∀ es fs : List (Bytes × Bool × Ty), TyWFS es = true → TyWFS fs = true → es.length = fs.length →
+    (tyKeyS es = tyKeyS fs ↔ tyEqS es fs = true)
+  | [], [], _, _, _ => by simp [tyKeyS, tyEqS]
+  | [], _ :: _, _, _, h => by simp at h
+  | _ :: _, [], _, _, h => by simp at h
+  | (n, o, v) :: es, (n', o', v') :: fs, ha, hb, hl => by
+      simp only [TyWFS, Bool.and_eq_true] at ha hb
+      exact tyKeyS_step (tyKey_iff v v' ha.1 hb.1) (tyKey_iff_S es fs ha.2 hb.2 (by simpa using hl))
 theorem tyKey_iff_L : ∀ ts us : List Ty, TyWFL ts = true → TyWFL us = true →
     (ts.map tyKey = us.map tyKey ↔ ts.length = us.length ∧ tyEqL ts us = true)
   | [], [], _, _ => by simp [tyEqL]
